@@ -336,7 +336,8 @@ HROWS = {r["number"]: r["symops"] for r in symm.load_table() if r["number"] in R
 RROWS = {r["number"]: r["symops"] for r in symm.load_table() if r["number"] in R_GROUPS and r["choice"] == "R"}
 # hexagonal (a, c): generic ones, and the ratios where the rhombohedral cell is metrically special - alpha = 90 (cube-shaped
 # primitive cell, c/a = sqrt(3/2)), alpha = 60 (fcc-like, c/a = sqrt(6)) and alpha = 109.47 (bcc-like, c/a = sqrt(3/8))
-AC = [(10.0, 14.0), (34.45, 11.24), (6.0, 30.0), (10.0, 10.0 * (1.5 ** 0.5)), (7.0, 7.0 * (6.0 ** 0.5)), (12.0, 12.0 * (0.375 ** 0.5))]
+AC = [(10.0, 14.0), (34.45, 11.24), (6.0, 30.0), (10.0, 10.0 * (1.5 ** 0.5)), (7.0, 7.0 * (6.0 ** 0.5)), (12.0, 12.0 * (0.375 ** 0.5)),
+      (12.0, 12.0)]      # hexagonal axes with a == c: three equal edges, unequal angles
 
 
 def trig_initial(spec):
